@@ -4,6 +4,17 @@
 // This file is only compiled with -tags verif; it adds no behaviour to the package.
 package tbtree
 
+// Property C10, snapshot immutability: a node reachable from an open snapshot is flushed, i.e. `!mut`; every mutating
+// operation applied to such a node works on a CLONE that is a fresh object, carries the fields of the original (deep
+// copies of whatever the mutators write later: the `values` array, every leafValue, every timedValues array; the
+// `nodes` array of an inner node) and leaves the original and everything the snapshot can reach through it unchanged.
+//
+// leafNode.setTs. `newLeaf` in the ensures is the local of the copy-on-write path (it is the result there: cowFresh).
+// cowOrig / cowOrigVals: the original node and all its leafValues are untouched; cowUnshared: NO leafValue is shared
+// (for every k). The two-level facts (history offset / count, key, versions of a cloned leafValue equal the original's)
+// are stated for element 0 only (cowFirst*): a universally quantified loop invariant over a two-level heap path does
+// not discharge (notes con-c10b, limitation 1); the scalar invariants carry the case split i == 1 / i >= 2 in the
+// formula because the solver does not find it by itself. firstTs0 / firstVal0 are excluded in the part file.
 //@ func (*leafNode).setTs
 //@   requires vals: forall(k, 0, len(l.values), l.values[k] != nil)
 //@   ensures args: old(l._ts) >= ts ==> r1 == ErrIllegalArguments && unchanged(l)
@@ -14,23 +25,133 @@ package tbtree
 //@   ensures cowFresh: old(l._ts) < ts && !old(l.mut) ==> sameobj(r0, newLeaf) && newLeaf != nil && fresh(newLeaf) && fresh(newLeaf.values)
 //@   ensures cowHdr: old(l._ts) < ts && !old(l.mut) ==> newLeaf.t == l.t && newLeaf._ts == ts && newLeaf.mut && len(newLeaf.values) == len(l.values)
 //@   ensures cowUnshared: old(l._ts) < ts && !old(l.mut) ==> forall(k, 0, len(l.values), newLeaf.values[k] != nil && !sameobj(newLeaf.values[k], l.values[k]))
-//@   ensures cowFirstHist: old(l._ts) < ts && !old(l.mut) && len(l.values) >= 1 ==> newLeaf.values[0] != nil && !sameobj(newLeaf.values[0], old(l.values[0])) && newLeaf.values[0].hOff == old(l.values[0].hOff) && newLeaf.values[0].hCount == old(l.values[0].hCount)
+//@   ensures cowFirstNew: old(l._ts) < ts && !old(l.mut) && len(l.values) >= 1 ==> newLeaf.values[0] != nil && !sameobj(newLeaf.values[0], old(l.values[0]))
+//@   ensures cowFirstHOff: old(l._ts) < ts && !old(l.mut) && len(l.values) >= 1 ==> newLeaf.values[0].hOff == old(l.values[0].hOff)
+//@   ensures cowFirstHCount: old(l._ts) < ts && !old(l.mut) && len(l.values) >= 1 ==> newLeaf.values[0].hCount == old(l.values[0].hCount)
 //@   ensures cowFirstKey: old(l._ts) < ts && !old(l.mut) && len(l.values) >= 1 ==> newLeaf.values[0].key == old(l.values[0].key)
-//@   ensures cowFirstTvs: old(l._ts) < ts && !old(l.mut) && len(l.values) >= 1 ==> len(newLeaf.values[0].timedValues) == old(len(l.values[0].timedValues)) && !sameobj(newLeaf.values[0].timedValues, old(l.values[0].timedValues))
+//@   ensures cowFirstTvsLen: old(l._ts) < ts && !old(l.mut) && len(l.values) >= 1 ==> len(newLeaf.values[0].timedValues) == old(len(l.values[0].timedValues))
+//@   ensures cowFirstTvsSep: old(l._ts) < ts && !old(l.mut) && len(l.values) >= 1 ==> !sameobj(newLeaf.values[0].timedValues, old(l.values[0].timedValues))
 //@   ensures cowFirstTs0: old(l._ts) < ts && !old(l.mut) && len(l.values) >= 1 ==> (old(len(l.values[0].timedValues)) >= 1 ==> newLeaf.values[0].timedValues[0].Ts == old(l.values[0].timedValues[0].Ts))
 //@   ensures cowFirstVal0: old(l._ts) < ts && !old(l.mut) && len(l.values) >= 1 ==> (old(len(l.values[0].timedValues)) >= 1 ==> newLeaf.values[0].timedValues[0].Value == old(l.values[0].timedValues[0].Value))
 //@   loop 1 invariant range: 0 <= i && i <= len(l.values)
 //@   loop 1 invariant hdr: newLeaf != nil && newLeaf.t == l.t && newLeaf._ts == ts && newLeaf.mut && len(newLeaf.values) == len(l.values)
 //@   loop 1 invariant unshared: forall(k, 0, i, newLeaf.values[k] != nil && !sameobj(newLeaf.values[k], old(l.values[k])))
-//@   loop 1 invariant firstHist: (i == 1 ==> newLeaf.values[0] != nil && !sameobj(newLeaf.values[0], old(l.values[0])) && newLeaf.values[0].hOff == old(l.values[0].hOff) && newLeaf.values[0].hCount == old(l.values[0].hCount))
-//@   && (i >= 2 ==> newLeaf.values[0] != nil && !sameobj(newLeaf.values[0], old(l.values[0])) && newLeaf.values[0].hOff == old(l.values[0].hOff) && newLeaf.values[0].hCount == old(l.values[0].hCount))
+//@   loop 1 invariant firstNew: (i == 1 ==> newLeaf.values[0] != nil && !sameobj(newLeaf.values[0], old(l.values[0])))
+//@   && (i >= 2 ==> newLeaf.values[0] != nil && !sameobj(newLeaf.values[0], old(l.values[0])))
+//@   loop 1 invariant firstHOff: (i == 1 ==> newLeaf.values[0].hOff == old(l.values[0].hOff))
+//@   && (i >= 2 ==> newLeaf.values[0].hOff == old(l.values[0].hOff))
+//@   loop 1 invariant firstHCount: (i == 1 ==> newLeaf.values[0].hCount == old(l.values[0].hCount))
+//@   && (i >= 2 ==> newLeaf.values[0].hCount == old(l.values[0].hCount))
 //@   loop 1 invariant firstKey: (i == 1 ==> newLeaf.values[0].key == old(l.values[0].key))
 //@   && (i >= 2 ==> newLeaf.values[0].key == old(l.values[0].key))
-//@   loop 1 invariant firstTvs: (i == 1 ==> len(newLeaf.values[0].timedValues) == old(len(l.values[0].timedValues)) && !sameobj(newLeaf.values[0].timedValues, old(l.values[0].timedValues)))
-//@   && (i >= 2 ==> len(newLeaf.values[0].timedValues) == old(len(l.values[0].timedValues)) && !sameobj(newLeaf.values[0].timedValues, old(l.values[0].timedValues)))
+//@   loop 1 invariant firstTvsLen: (i == 1 ==> len(newLeaf.values[0].timedValues) == old(len(l.values[0].timedValues)))
+//@   && (i >= 2 ==> len(newLeaf.values[0].timedValues) == old(len(l.values[0].timedValues)))
+//@   loop 1 invariant firstTvsSep: (i == 1 ==> !sameobj(newLeaf.values[0].timedValues, old(l.values[0].timedValues)))
+//@   && (i >= 2 ==> !sameobj(newLeaf.values[0].timedValues, old(l.values[0].timedValues)))
 //@   loop 1 invariant firstTs0: (i == 1 ==> (old(len(l.values[0].timedValues)) >= 1 ==> newLeaf.values[0].timedValues[0].Ts == old(l.values[0].timedValues[0].Ts)))
 //@   && (i >= 2 ==> (old(len(l.values[0].timedValues)) >= 1 ==> newLeaf.values[0].timedValues[0].Ts == old(l.values[0].timedValues[0].Ts)))
 //@   loop 1 invariant firstVal0: (i == 1 ==> (old(len(l.values[0].timedValues)) >= 1 ==> newLeaf.values[0].timedValues[0].Value == old(l.values[0].timedValues[0].Value)))
 //@   && (i >= 2 ==> (old(len(l.values[0].timedValues)) >= 1 ==> newLeaf.values[0].timedValues[0].Value == old(l.values[0].timedValues[0].Value)))
 //@   loop 1 decreases len(l.values) - i
 //@   loop 1 assigns newLeaf.values
+
+// innerNode.setTs: the clone shares the CHILDREN (same interface values: nodeRef / immutable nodes carry their own
+// _ts, offset and min offset) but not the `nodes` array: writeTo replaces n.nodes[i] by nodeRefs in place on a mutated
+// node, updateOnInsert/split re-slice it. `off` and `_minOff` of the clone are not copied: both are "only valid when
+// !mutated()" (writeTo recomputes them for a mutated node before clearing `mut`).
+//@ func (*innerNode).setTs
+//@   ensures args: old(n._ts) >= ts ==> r1 == ErrIllegalArguments && unchanged(n) && unchanged(n.nodes)
+//@   ensures ok: old(n._ts) < ts ==> r1 == nil
+//@   ensures inplace: old(n._ts) < ts && old(n.mut) ==> sameobj(r0, n) && n._ts == ts && n.mut && n.t == old(n.t) && n.off == old(n.off) && n._minOff == old(n._minOff) && n.nodes == old(n.nodes) && unchanged(n.nodes)
+//@   ensures cowOrig: !old(n.mut) ==> unchanged(n) && unchanged(n.nodes)
+//@   ensures cowFresh: old(n._ts) < ts && !old(n.mut) ==> sameobj(r0, newNode) && newNode != nil && fresh(newNode) && fresh(newNode.nodes) && !sameobj(newNode.nodes, n.nodes)
+//@   ensures cowHdr: old(n._ts) < ts && !old(n.mut) ==> newNode.t == n.t && newNode._ts == ts && newNode.mut && len(newNode.nodes) == len(n.nodes)
+//@   ensures cowKids: old(n._ts) < ts && !old(n.mut) ==> forall(k, 0, len(n.nodes), newNode.nodes[k] == n.nodes[k])
+
+// leafNode.insert: copy-on-write entry point of bulk insertion. The mutation itself is updateOnInsert (contract in
+// zz_verif_contracts_c10.go, extended here by `requires mutable: l.mut`: it is only ever applied to a mutable node, i.e.
+// to l itself when l.mut or to the clone). updateOnInsert has no expressible frame (it writes l.values[k].timedValues for
+// an unbounded set of k), so nothing can be said about the heap AFTER the call; the clone is put under contract through
+// the invariants of the cloning loop, which are checked obligations and hold at loop exit = at the call
+// newLeaf.updateOnInsert(kvts): the original node and its leafValues are unchanged, the clone is another object with
+// t, _ts carried over and mut set, no leafValue is shared, element 0 is a faithful copy (see setTs for why the
+// two-level facts are stated for one element only).
+//@ func (*leafNode).insert
+//@   requires t: l.t != nil
+//@   requires vals: forall(k, 0, len(l.values), l.values[k] != nil)
+//@   requires sep: !sameobj(kvts, l)
+//@   ensures depth: r2 == nil ==> r1 == 1 && len(r0) >= 1
+//@   loop 1 invariant hdr: newLeaf != nil && !sameobj(newLeaf, l) && newLeaf.t == l.t && newLeaf._ts == l._ts && newLeaf.mut && len(newLeaf.values) == len(l.values) && !sameobj(newLeaf.values, l.values)
+//@   loop 1 invariant orig: unchanged(l)
+//@   loop 1 invariant origVals: forall(k, 0, len(old(l.values)), unchanged(old(l.values[k])))
+//@   loop 1 invariant unshared: forall(k, 0, rangeindex+1, newLeaf.values[k] != nil && !sameobj(newLeaf.values[k], old(l.values[k])))
+//@   loop 1 invariant firstNew: (rangeindex == 0 ==> newLeaf.values[0] != nil && !sameobj(newLeaf.values[0], old(l.values[0])))
+//@   && (rangeindex >= 1 ==> newLeaf.values[0] != nil && !sameobj(newLeaf.values[0], old(l.values[0])))
+//@   loop 1 invariant firstHOff: (rangeindex == 0 ==> newLeaf.values[0].hOff == old(l.values[0].hOff))
+//@   && (rangeindex >= 1 ==> newLeaf.values[0].hOff == old(l.values[0].hOff))
+//@   loop 1 invariant firstHCount: (rangeindex == 0 ==> newLeaf.values[0].hCount == old(l.values[0].hCount))
+//@   && (rangeindex >= 1 ==> newLeaf.values[0].hCount == old(l.values[0].hCount))
+//@   loop 1 invariant firstKey: (rangeindex == 0 ==> newLeaf.values[0].key == old(l.values[0].key))
+//@   && (rangeindex >= 1 ==> newLeaf.values[0].key == old(l.values[0].key))
+//@   loop 1 invariant firstTvsLen: (rangeindex == 0 ==> len(newLeaf.values[0].timedValues) == old(len(l.values[0].timedValues)))
+//@   && (rangeindex >= 1 ==> len(newLeaf.values[0].timedValues) == old(len(l.values[0].timedValues)))
+//@   loop 1 invariant firstTvsSep: (rangeindex == 0 ==> !sameobj(newLeaf.values[0].timedValues, old(l.values[0].timedValues)))
+//@   && (rangeindex >= 1 ==> !sameobj(newLeaf.values[0].timedValues, old(l.values[0].timedValues)))
+//@   loop 1 assigns newLeaf.values
+
+// innerNode.updateOnInsert: not verified itself (`go` statements and maps are not modelled, see con-c10 notes); the block
+// only states what it needs from its callers, so that (*innerNode).insert has to establish it for the clone: the node
+// is MUTABLE (copy-on-write discipline: the in-place mutator is never applied to a flushed node), has its tree and only
+// non-nil children. No ensures, no frame: callers must assume everything reachable is overwritten.
+//@ func (*innerNode).updateOnInsert
+//@   requires mutable: n.mut
+//@   requires t: n.t != nil
+//@   requires kids: forall(k, 0, len(n.nodes), n.nodes[k] != nil)
+
+// innerNode.insert: there is no loop to hang invariants on (the children are copied by the builtin copy) and nothing
+// survives the call of updateOnInsert, so the clone is constrained through updateOnInsert's preconditions at the call
+// newNode.updateOnInsert(kvts): mutable, tree carried over, every child reference carried over (non-nil).
+//@ func (*innerNode).insert
+//@   requires t: n.t != nil
+//@   requires kids: forall(k, 0, len(n.nodes), n.nodes[k] != nil)
+
+// ---- Task B: key range of a snapshot reader -------------------------------------------------------------------------
+// Meaning of ReaderSpec, read off Reader.Read/ReadBetween (reader.go): the reader yields, in key order (reversed when
+// DescOrder), the keys k that carry Prefix and lie between SeekKey and EndKey: ascending SeekKey <= k (< when
+// !InclusiveSeek) and, when EndKey is non-empty, k <= EndKey (< when !InclusiveEnd); descending k <= SeekKey and
+// EndKey <= k. An empty SeekKey in descending order / an empty EndKey in ascending order means "no bound".
+// NewReader narrows the bounds to the prefix range [Prefix, G] where G = Prefix padded with 0xFF up to maxKeySize (every
+// storable key carrying the prefix lies in it and both ends carry the prefix themselves): a bound substituted by an
+// end of the prefix range MUST be inclusive; a bound of the caller that already lies inside is kept as given.
+// maxKeySize <= 65535 (math.MaxUint16) is the bound of Options.Validate; OpenWith takes MAX_KEY_SIZE of an existing
+// index from the commit-log metadata without re-validating it (assumption, see notes).
+
+//@ func greatestKeyOfSize
+//@   requires size: 0 <= size && size <= 65535
+//@   ensures len: len(r0) == size
+//@   ensures ff: forall(j, 0, size, r0[j] == 0xFF)
+//@   ensures fresh: fresh(r0)
+//@   assigns nothing
+//@   loop 1 invariant range: 0 <= i && i <= size && len(k) == size
+//@   loop 1 invariant ff: forall(j, 0, i, k[j] == 0xFF)
+//@   loop 1 decreases size - i
+
+//@ func (*Snapshot).NewReader
+//@   requires t: s.t != nil && s.t.maxKeySize <= 65535
+//@   requires readers: s.readers != nil
+//@   ensures closed: old(s.closed) ==> err == ErrAlreadyClosed && r == nil
+//@   ensures args: !old(s.closed) && (len(spec.SeekKey) > old(s.t.maxKeySize) || len(spec.Prefix) > old(s.t.maxKeySize)) ==> err == ErrIllegalArguments && r == nil
+//@   ensures ok: !old(s.closed) && len(spec.SeekKey) <= old(s.t.maxKeySize) && len(spec.Prefix) <= old(s.t.maxKeySize) ==> err == nil && r != nil && fresh(r)
+//@   ensures pass: err == nil ==> r.snapshot == s && r.prefix == spec.Prefix && r.descOrder == spec.DescOrder && r.includeHistory == spec.IncludeHistory && r.offset == spec.Offset && !r.closed && r.leafNode == nil
+//@   ensures ids: err == nil ==> r.id == old(s.maxReaderID) && s.maxReaderID == old(s.maxReaderID) + 1
+//@   ensures greatest: err == nil ==> len(greatestPrefixedKey) == old(s.t.maxKeySize) && forall(j, 0, len(spec.Prefix), greatestPrefixedKey[j] == spec.Prefix[j]) && forall(j, len(spec.Prefix), old(s.t.maxKeySize), greatestPrefixedKey[j] == 0xFF)
+//@   ensures ascNoEnd: err == nil && !spec.DescOrder && len(spec.EndKey) == 0 ==> r.inclusiveEnd
+//@   ensures descNoSeek: err == nil && spec.DescOrder && len(spec.SeekKey) == 0 ==> r.inclusiveSeek
+//@   ensures ascSeekSub: err == nil && !spec.DescOrder && bytes.Compare(spec.SeekKey, spec.Prefix) < 0 ==> r.seekKey == spec.Prefix && r.inclusiveSeek
+//@   ensures ascSeekKeep: err == nil && !spec.DescOrder && bytes.Compare(spec.SeekKey, spec.Prefix) >= 0 ==> r.seekKey == spec.SeekKey && r.inclusiveSeek == spec.InclusiveSeek
+//@   ensures ascEndSub: err == nil && !spec.DescOrder && (len(spec.EndKey) == 0 || bytes.Compare(spec.EndKey, greatestPrefixedKey) > 0) ==> r.endKey == greatestPrefixedKey && r.inclusiveEnd
+//@   ensures ascEndKeep: err == nil && !spec.DescOrder && len(spec.EndKey) != 0 && bytes.Compare(spec.EndKey, greatestPrefixedKey) <= 0 ==> r.endKey == spec.EndKey && r.inclusiveEnd == spec.InclusiveEnd
+//@   ensures descSeekSub: err == nil && spec.DescOrder && (len(spec.SeekKey) == 0 || bytes.Compare(spec.SeekKey, greatestPrefixedKey) > 0) ==> r.seekKey == greatestPrefixedKey && r.inclusiveSeek
+//@   ensures descSeekKeep: err == nil && spec.DescOrder && len(spec.SeekKey) != 0 && bytes.Compare(spec.SeekKey, greatestPrefixedKey) <= 0 ==> r.seekKey == spec.SeekKey && r.inclusiveSeek == spec.InclusiveSeek
+//@   ensures descEndSub: err == nil && spec.DescOrder && bytes.Compare(spec.EndKey, spec.Prefix) < 0 ==> r.endKey == spec.Prefix && r.inclusiveEnd
+//@   ensures descEndKeep: err == nil && spec.DescOrder && bytes.Compare(spec.EndKey, spec.Prefix) >= 0 ==> r.endKey == spec.EndKey && r.inclusiveEnd == spec.InclusiveEnd
